@@ -18,6 +18,45 @@ def gen_prog(rng, i):
     return prog
 
 
+CALL_HDR = """from dataclasses import dataclass
+from inline_snapshot import snapshot
+R = []
+
+
+@dataclass
+class A:
+    a: int
+    b: int = 2
+    c: int = 3
+    d: int = 4
+    e: int = 5
+
+
+"""
+
+
+def gen_call_prog(rng, i):
+    """constructor calls: the previous text writes some keyword arguments explicitly (some of them with the default value, which
+    `update` removes, some with a wrong value), the observed object needs other arguments (which `fix` changes or adds)"""
+    defaults = {"b": 2, "c": 3, "d": 4, "e": 5}
+    tests = []
+    for k in range(rng.randint(1, 3)):
+        new = {"a": rng.randint(0, 9)}
+        old = {"a": new["a"] if rng.random() < 0.6 else new["a"] + 1}
+        for f, dv in defaults.items():
+            if rng.random() < 0.5:
+                new[f] = rng.choice([dv, dv + 10])
+            r = rng.random()
+            if r < 0.3:
+                old[f] = dv                      # explicit default
+            elif r < 0.55:
+                old[f] = new.get(f, dv) if rng.random() < 0.6 else dv + 20
+        oldsrc = "A(" + ", ".join(f"{f}={rng.choice([repr(v), f'{v - 1}+1'])}" for f, v in old.items()) + ")"
+        newsrc = "A(" + ", ".join(f"{f}={v}" for f, v in new.items()) + ")"
+        tests.append(f"def test_{k}():\n    R.append({newsrc} == snapshot({oldsrc}))\n")
+    return {"source": CALL_HDR + "\n\n".join(tests), "setup": ["black", "noblack"][i % 2], "seed": rng.randrange(10 ** 9), "calls": True}
+
+
 def norm_ast(src):
     return ast.dump(ast.parse(src))
 
@@ -131,11 +170,12 @@ def run(ctx: Ctx):
         "A: single call sites run with F1, then with F2 on the file the first run wrote, and once with F1 u F2: equal final values; the second run vs Model/SnapOps.v "
         "in Coq from the source really written (canonicity of every leaf read back from the file). B: programs with 2-5 snapshot sites whose comparisons are recorded, not asserted (so the observations do not depend on the approved flags), each site in its own "
         "test; P = categories pending with no flags; for every program with |P| >= 2: all |P|! orders (quick: at most 8 for |P| = 4) of single-category runs vs one run with P "
-        "approved; equality of ast.dump of the final files; with and without black. non-trivial = |P| >= 2; distinct = distinct programs")
+        "approved; equality of ast.dump of the final files; with and without black; plus programs of dataclass constructor calls whose previous text holds explicit default-valued "
+        "keyword arguments (update removes them) next to wrong / missing ones (fix). non-trivial = |P| >= 2; distinct = distinct programs")
     proof_step(ctx)
     two_run_cases(ctx, 500 if not ctx.thorough else 5000)
     n = 150 if not ctx.thorough else 1500
-    progs = [gen_prog(ctx.rng, i) for i in range(n)]
+    progs = [gen_prog(ctx.rng, i) for i in range(n)] + [gen_call_prog(ctx.rng, i) for i in range(n // 3)]
     for p in progs:
         p["max_orders"] = 8 if not ctx.thorough else 24
     outs = pmap(run_orders, progs, chunksize=2)
